@@ -301,7 +301,7 @@ func (comp) Extra(prop string, tier string, seed int64, scratch string) *core.Ex
 		rs := seed*1_000_003 + int64(r)
 		steps := []func(*collector, int64, int){
 			phaseTxAddOnly, phaseTxMixed, phaseTxLimits, phaseTxEvict, phaseTxClear, phaseTxDiagnose,
-			phaseImmunity, phaseCrossTx, phaseImmunityClear, phaseLRU, phaseCapacityLRU, phaseFifo, phaseTimeCache, phaseConcurrentMap,
+			phaseImmunity, phaseCrossTx, phaseImmunityClear, phaseLRU, phaseCapacityLRU, phaseAdapter, phaseFifo, phaseTimeCache, phaseConcurrentMap,
 		}
 		for _, f := range steps {
 			if c.aborted.Load() {
